@@ -1,7 +1,7 @@
 \* every in-scope text of length <= 5 over the full class alphabet
 SPECIFICATION Spec
 CONSTANTS
-  Chars = {"LP", "RP", "SP", "TAB", "LF", "CR", "DQ", "BAR", "SEMI", "A", "D", "HASH", "COLON", "MINUS"}
+  Chars = {"LP", "RP", "SP", "TAB", "LF", "CR", "DQ", "BAR", "SEMI", "A", "D", "HASH", "COLON", "MINUS", "BS"}
   MaxLen = 5
   MaxDepth = 2
 INVARIANT TypeOK
